@@ -33,7 +33,7 @@ def _ustr(unit):
     return u.Unit(unit).to_string()
 
 
-def make_table(shape, id0, tscale="tcb"):
+def make_table(shape, id0, tscale="tcb", f32=()):
     import astropy.units as u
     from astropy.time import Time
     from thejoker import JokerSamples
@@ -47,8 +47,10 @@ def make_table(shape, id0, tscale="tcb"):
     cols = []
     for name, us in zip(shape["cols"], shape["units"]):
         ci = ALLCOLS.index(name)
-        can = np.array([i + 100000.0 * ci for i in ids]) * _unit(CANON[name])
+        can = np.array([i + 100000.0 * ci + _frac(i) for i in ids]) * _unit(CANON[name])
         q = can.to(_unit(us)) if us != "" else can
+        if name in f32:           # a column stored in single precision (a library written to save space)
+            q = q.astype(np.float32)
         s[name] = q
         cols.append(np.asarray(s.tbl[name].value if hasattr(s.tbl[name], "value") else s.tbl[name], dtype=float))
     rows = [tokens.bits_hash(np.array([c[k] for c in cols])) for k in range(n)]
@@ -57,13 +59,18 @@ def make_table(shape, id0, tscale="tcb"):
     return s, tbl
 
 
-def _decode(v, name, unit):
+def _frac(i):
+    """a small fractional part that single precision cannot hold next to the row id (so that a value that went through float32 shows)"""
+    return ((int(i) * 37) % 101) / 101.0 * 1e-3
+
+
+def _decode(v, name, unit, tol=1e-6):
     """value in `unit` -> (row id, ok)"""
     ci = ALLCOLS.index(name)
     can = (float(v) * _unit(unit)).to_value(_unit(CANON[name])) if CANON[name] != "" or unit != "" else float(v)
     x = can - 100000.0 * ci
     r = round(x)
-    ok = abs(x - r) < 1e-6 * max(1.0, abs(can)) and r >= 1
+    ok = abs(x - r - _frac(r)) < tol * max(1.0, abs(can)) and r >= 1
     return int(r), bool(ok)
 
 
@@ -100,7 +107,7 @@ def observe(path):
             "rows": rows, "ids": ids}
 
 
-def batch_event(path, cur, rnd):
+def batch_event(path, cur, rnd, f32=()):
     """one read_batch call on the current file; cur = spec-side knowledge of columns/units (from the last observation)"""
     from thejoker.utils import read_batch
     cols_all, units_all, n = cur["cols"], cur["units"], len(cur["ids"])
@@ -158,7 +165,9 @@ def batch_event(path, cur, rnd):
         ev["colsok"] = False
         return ev
     for r in range(out.shape[0]):
-        dec = [_decode(out[r, j], cols[j], req.get(cols[j], units_all[cols_all.index(cols[j])])) for j in range(len(cols))]
+        # a column stored in double precision comes back in double precision (1e-10), one stored in single precision to that
+        dec = [_decode(out[r, j], cols[j], req.get(cols[j], units_all[cols_all.index(cols[j])]), tol=1e-6 if cols[j] in f32 else 1e-10)
+               for j in range(len(cols))]
         if not all(d[1] for d in dec):
             ev["exact"] = False
         ev["outids"].append(dec[0][0] if all(d[0] == dec[0][0] for d in dec) else 0)
@@ -175,7 +184,7 @@ def run_history(case):
     nid = 0
     for op in case["ops"]:
         if op["op"] == "write":
-            s, tbl = make_table(op["shape"], nid, case.get("tscale", "tcb"))
+            s, tbl = make_table(op["shape"], nid, case.get("tscale", "tcb"), f32=case.get("f32", ()))
             nid += op["shape"]["n"]
             sha0 = tokens.file_sha(path) if os.path.exists(path) else ""
             ev = {"ev": "Write", "tbl": tbl, "ow": op["ow"], "ap": op["ap"], "raised": False}
@@ -194,7 +203,7 @@ def run_history(case):
             cur = observe(path)
             if cur["absent"] or not cur["ids"] or (cur["cols"] and cur["cols"][0].startswith("<unreadable")):
                 continue
-            events.append(batch_event(path, cur, rnd))
+            events.append(batch_event(path, cur, rnd, f32=case.get("f32", ())))
     shutil.rmtree(wd, ignore_errors=True)
     return {"id": case["id"], "events": events}
 
@@ -251,7 +260,9 @@ def run(ctx, selftest=False):
                 ops.append({"op": "batch"})
         ops += [{"op": "read"}, {"op": "batch"}]
         cases.append({"id": "rnd-%d" % j, "ops": ops, "seed": rnd.randint(0, 10**6), "workdir": ctx.workdir,
-                      "tscale": ["tcb", "utc", "tt", "tdb"][j % 4]})
+                      "tscale": ["tcb", "utc", "tt", "tdb"][j % 4],
+                      # one history in four stores one column (the same in every table of the history) in single precision
+                      "f32": [base_cols[(j // 4) % len(base_cols)]] if j % 4 == 1 else []})
     for j in range(20 if quick else 200):   # FITS: write / overwrite / read only
         base_cols = rnd.choice(colsets[:4])
         sh = {"cols": list(base_cols), "units": [ualt[c][0] for c in base_cols], "meta": {"tref": rnd.choice([0, 5, -1]), "poly": 1, "noff": 0},
